@@ -367,10 +367,10 @@ pub fn c16_world(seed: u64, corpus: &[Program]) -> World {
                 let a = r.usize_below(t.len());
                 let b = (a + r.usize_below(3)).min(t.len() - 1);
                 let n = *r.pick(&[2u32, 10, 100, 1000, 5000, 20000]);
-                // keep the stuttered text below 64 KiB: beyond that the quadratic scanners of the
+                // keep the stuttered text below 16 KiB: beyond that the quadratic scanners of the
                 // preprocessor turn every such world into a multi-second run without reaching new code
                 let unit = (t[b].1 - t[a].0).max(1) as u32;
-                let n = n.min(65536 / unit).max(2);
+                let n = n.min(16384 / unit).max(2);
                 push(SrcFault::Dup(t[a].0, t[b].1, n), &mut cur, &mut fl);
             }
         }
